@@ -106,7 +106,8 @@ type c16Shape struct {
 	groups  []int  // composition of len(pattern)
 	nest    []int  // per group: 0 plain, 1 WithOptions, 2 side-specific options, 3 WithOptions(side-specific(...)), 4 side-specific(WithOptions(...))
 	empties int    // bitmask: insert an empty WithInterceptors() before group k
-	merge   bool   // wrap all groups together in one outer WithOptions
+	merge   bool   // wrap all groups together in one outer side-specific options wrapper
+	mergeU  bool   // wrap all groups together in one outer WithOptions (groups plain or nested in WithOptions)
 }
 
 func (s c16Shape) String() string {
@@ -118,7 +119,11 @@ func (s c16Shape) String() string {
 			p = append(p, "nil")
 		}
 	}
-	return fmt.Sprintf("list=[%s] groups=%v nest=%v empties=%b merge=%v", strings.Join(p, ","), s.groups, s.nest, s.empties, s.merge)
+	m := fmt.Sprint(s.merge)
+	if s.mergeU {
+		m = "WithOptions"
+	}
+	return fmt.Sprintf("list=[%s] groups=%v nest=%v empties=%b merge=%v", strings.Join(p, ","), s.groups, s.nest, s.empties, m)
 }
 
 func (s c16Shape) build(side string, log *c16Log) (flat []int, hopts []connect.HandlerOption, copts []connect.ClientOption) {
@@ -169,11 +174,22 @@ func (s c16Shape) build(side string, log *c16Log) (flat []int, hopts []connect.H
 		}
 		return o
 	}
+	wrapU := func(o connect.Option, n int) connect.Option {
+		switch n {
+		case 1, 2:
+			return connect.WithOptions(o)
+		case 3, 4:
+			return connect.WithOptions(connect.WithOptions(o), connect.WithOptions())
+		}
+		return o
+	}
+	var uopts []connect.Option
 	oi := 0
 	for gi := range s.groups {
 		if s.empties&(1<<gi) != 0 {
 			hopts = append(hopts, opts[oi])
 			copts = append(copts, opts[oi])
+			uopts = append(uopts, opts[oi])
 			oi++
 		}
 		n := 0
@@ -182,12 +198,19 @@ func (s c16Shape) build(side string, log *c16Log) (flat []int, hopts []connect.H
 		}
 		hopts = append(hopts, wrapH(opts[oi], n))
 		copts = append(copts, wrapC(opts[oi], n))
+		uopts = append(uopts, wrapU(opts[oi], n))
 		oi++
 	}
 	if s.empties&(1<<len(s.groups)) != 0 {
 		// an empty group after everything else
 		hopts = append(hopts, connect.WithInterceptors())
 		copts = append(copts, connect.WithInterceptors())
+		uopts = append(uopts, connect.WithInterceptors())
+	}
+	if s.mergeU {
+		// plain and nested groups side by side inside one WithOptions
+		all := connect.WithOptions(uopts...)
+		return flat, []connect.HandlerOption{all}, []connect.ClientOption{all}
 	}
 	if s.merge {
 		hopts = []connect.HandlerOption{connect.WithHandlerOptions(hopts...)}
@@ -248,7 +271,7 @@ func sortPhases(log []string, phases []string) []string {
 
 func c16(run *ev.Run) int {
 	maxN := run.Pick(4, 5)
-	run.SetRule(fmt.Sprintf("cases = all interceptor lists up to length %d with nil at any position x all 2^(n-1) compositions into consecutive WithInterceptors groups x nesting of each group in {plain, WithOptions, WithClientOptions/WithHandlerOptions, two levels} (all nestings for <=2 groups, seeded sample above) x empty groups x all-in-one outer wrapper; the same option values build the clients and handlers of all 4 kinds (applied 4 times); one real call per kind through the loopback; oracle: per-phase event log == log predicted from the flat declaration-order list, every id exactly once per phase; distinct by (list pattern, grouping, nesting class, kind, side)", maxN))
+	run.SetRule(fmt.Sprintf("cases = all interceptor lists up to length %d with nil at any position x all 2^(n-1) compositions into consecutive WithInterceptors groups x nesting of each group in {plain, WithOptions, WithClientOptions/WithHandlerOptions, two levels} (all nestings for <=2 groups, seeded sample above) x empty groups x all-in-one outer wrapper (side-specific, or one WithOptions holding plain and nested groups side by side); the same option values build the clients and handlers of all 4 kinds (applied 4 times); one real call per kind through the loopback; oracle: per-phase event log == log predicted from the flat declaration-order list, every id exactly once per phase; distinct by (list pattern, grouping, nesting class, kind, side)", maxN))
 	var shapes []c16Shape
 	r := run.Rand("c16-shapes")
 	for n := 0; n <= maxN; n++ {
@@ -300,6 +323,11 @@ func c16(run *ev.Run) int {
 						s3 := s
 						s3.merge = true
 						shapes = append(shapes, s3)
+					}
+					if ni%4 == 2 || (g >= 3 && ni > 0) {
+						s4 := s
+						s4.mergeU = true
+						shapes = append(shapes, s4)
 					}
 				}
 			}
